@@ -118,13 +118,13 @@ partial def snap : T → Json
   | .empty ic => Json.mkObj [("kind", "empty"), ("ignore_case", toJson ic)]
   | .node rx cs => Json.mkObj [
       ("kind", "node"), ("prefix", jStr rx.original),
-      ("regex", jStr (if rx.original.isEmpty then ".*".toList else '^' :: rx.original)),
-      ("ignore_case", toJson rx.ic), ("compiled", toJson rx.compiled),
+      ("regex", jStr rx.regex.toStr),
+      ("ignore_case", toJson rx.ic), ("compiled", toJson rx.isCompiled),
       ("children", Json.arr (cs.map snap).toArray)]
   | .leaf rx vs => Json.mkObj [
       ("kind", "leaf"), ("pattern", jStr rx.original),
-      ("regex", jStr ('^' :: (rx.original ++ ['$']))),
-      ("ignore_case", toJson rx.ic), ("compiled", toJson rx.compiled),
+      ("regex", jStr rx.regex.toStr),
+      ("ignore_case", toJson rx.ic), ("compiled", toJson rx.isCompiled),
       ("ids", Json.arr ((vs.map (·.1)).mergeSort (fun a b => decide (a ≤ b)) |>.map toJson).toArray)]
 
 def dedup (l : List (List Char)) : List (List Char) :=
@@ -216,13 +216,25 @@ partial def parseSnap (L : List (Entry String Nat)) (j : Json) : Except String P
   if kind == "node" then
     let q := (← Drv.str? j "prefix").toList
     let cs ← (← Drv.arr? j "children").toList.mapM (parseSnap L)
+    -- the `regex` STRING of the real LazyRegex decides which source the model regex gets; a string that is neither
+    -- `^prefix` nor `.*` is kept as a (wrong) leaf source so that `Item.inv` fails on it
+    let src : RxSrc := if rstr == ".*".toList then .any else
+      match rstr with
+      | '^' :: rest => .node rest
+      | other => .leaf other
     let okStr := rstr == (if q.isEmpty then ".*".toList else '^' :: q)
-    return ⟨.node ⟨q, false, ic, compiled⟩ (cs.map (·.tree)), cs.all (·.valuesOk), okStr && cs.all (·.stringsOk)⟩
+    -- the hook shows only whether a value is cached, not what it was built from: assumed consistent
+    let rx : LazyRegex := ⟨q, src, ic, if compiled then some ⟨src, ic⟩ else none⟩
+    return ⟨.node rx (cs.map (·.tree)), cs.all (·.valuesOk), okStr && cs.all (·.stringsOk)⟩
   else if kind == "leaf" then
     let p := (← Drv.str? j "pattern").toList
     let ids ← (← Drv.arr? j "ids").toList.mapM (fun x => (fromJson? x : Except String String))
     let vs := ids.map fun id => (id, lookupVal L p id)
-    return ⟨.leaf ⟨p, true, ic, compiled⟩ (vs.map fun (id, v) => (id, v.getD 0)), vs.all (·.2.isSome),
+    let src : RxSrc := match rstr with
+      | '^' :: rest => if rest.getLast? == some '$' then .leaf rest.dropLast else .node rest
+      | other => .node other
+    let rx : LazyRegex := ⟨p, src, ic, if compiled then some ⟨src, ic⟩ else none⟩
+    return ⟨.leaf rx (vs.map fun (id, v) => (id, v.getD 0)), vs.all (·.2.isSome),
       rstr == '^' :: (p ++ ['$'])⟩
   else throw "snapshot kind"
 
